@@ -1,5 +1,8 @@
 import Bmc.Proofs.C12
 import Bmc.Proofs.GenDec.CipherSuiteRecords
+import Bmc.Proofs.GenOrch.TranslatedOk
+import Bmc.Proofs.GenOrch.DetermineCipherSuite
+import Bmc.Proofs.GenOrch.RetrieveSupportedCipherSuites
 #print axioms Bmc.Proofs.C12.choose_first_supported
 #print axioms Bmc.Proofs.C12.none_supported
 #print axioms Bmc.Proofs.C12.singleton_no_discovery
@@ -11,3 +14,11 @@ import Bmc.Proofs.GenDec.CipherSuiteRecords
 #print axioms Bmc.Proofs.C12.discovery_failure_is_error
 #print axioms Bmc.Proofs.GenDec.parseCipherSuiteRecordData_gen_eq
 #print axioms Bmc.Proofs.GenDec.parseCipherSuiteRecordData_fuel
+#print axioms Bmc.Proofs.GenOrch.translated_ok
+#print axioms Bmc.Proofs.GenOrch.gaveUp_none
+#print axioms Bmc.Proofs.GenOrch.defaultCipherSuites_gen_eq
+#print axioms Bmc.Proofs.GenOrch.determineCipherSuite_gen_eq
+#print axioms Bmc.Proofs.GenOrch.determineCipherSuite_fuel_any
+#print axioms Bmc.Proofs.GenOrch.RetrieveSupportedCipherSuites_gen_eq
+#print axioms Bmc.Proofs.GenOrch.RetrieveSupportedCipherSuites_fuel
+#print axioms Bmc.Proofs.GenOrch.RetrieveSupportedCipherSuites_fuel_any
